@@ -200,8 +200,35 @@ fn oracle_c12(ctx: &RunCtx, s: &StepRec, p: &Post) -> Vec<String> {
     oracle_step(&s.pre, &p.st, &ctx.envs[s.ver].path, ss, consistent)
 }
 
+/// TrainState::new -- the state every simulation starts from (row 0 of its history), against ts_new (TrainStep.v);
+/// oracle: rear = front - length, front >= length and >= the requested offset, counters at their start values.
+fn initial_state_cases(r: &mut Rng, n: usize, sink: &mut Sink) {
+    use altrios_core::train::{InitTrainState, TrainState};
+    for k in 0..n {
+        let len = *r.pick(&[100.0, 812.5, 1500.0, 2000.0, 2461.3]);
+        let (ms, mr, mf) = (r.range(1e5, 2e7).round(), r.range(1e3, 2e5).round(), if r.chance(0.3) { 0.0 } else { r.range(1e4, 1e7).round() });
+        let mode = k % 4; // 0: no init, 1: offset beyond the length, 2: offset below the length, 3: time/speed only
+        let t0 = if mode == 0 { 0.0 } else { r.range(0.0, 5000.0).round() };
+        let v0 = if mode == 0 { 0.0 } else { r.range(0.0, 25.0) };
+        let off: Option<f64> = match mode { 1 => Some(len + r.range(0.0, 20000.0)), 2 => Some(r.range(0.0, len)), _ => None };
+        let init = if mode == 0 { None } else { Some(InitTrainState::new(Some(uc::S * t0), off.map(|x| uc::M * x), Some(uc::MPS * v0))) };
+        let st = TrainState::new(uc::M * len, uc::KG * ms, uc::KG * mr, uc::KG * mf, init);
+        let mut f = vec![];
+        if st.offset_back.value != st.offset.value - len { f.push(format!("initial state: rear {} is not front {} minus length {}", st.offset_back.value, st.offset.value, len)); }
+        if !(st.offset.value >= len) { f.push(format!("initial state: front {} before one train length {}", st.offset.value, len)); }
+        if let Some(o) = off { if !(st.offset.value >= o) { f.push(format!("initial state: front {} behind the requested offset {}", st.offset.value, o)); } }
+        if st.total_dist.value != 0.0 || st.i != 1 { f.push(format!("initial state: total_dist {} / step counter {}", st.total_dist.value, st.i)); }
+        let tags = vec![format!("init:{}", ["none", "offset_beyond_length", "offset_below_length", "time_speed_only"][mode])];
+        sink.put(Case { id: format!("initial_state/{}", k), kind: "initial_state".into(),
+            coq: format!("x_ts_new {} {} {} {} {} {} {}", cf(len), cf(ms), cf(mr), cf(mf), cf(t0), copt(off.map(cf)), cf(v0)),
+            outcome: Outcome::Ok(outs_tstate(&st)), tags, input: json!({"length": len, "mass_static": ms, "mass_rot": mr, "mass_freight": mf, "time": t0, "offset": off, "speed": v0}),
+            oracle_fail: f, known: vec![], in_domain: true });
+    }
+}
+
 pub fn run(seed: u64, n: usize, sink: &mut Sink) {
     let mut r = Rng::new(seed ^ 0xC12);
+    { let mut ri = Rng::new(seed ^ 0xC12_1417); initial_state_cases(&mut ri, (n / 30).max(8), sink); }
     let n_direct = n / 5;
     set_link_cases(&mut r, n_direct, sink);
     let per_run = 24;
